@@ -18,6 +18,9 @@ func (k msgServer) NonVotingUndelegate(ctx context.Context, msg *types.MsgNonVot
 	}
 
 	// Validate amount
+	if err := msg.Amount.Validate(); err != nil {
+		return nil, errorsmod.Wrap(sdkerrors.ErrInvalidCoins, err.Error())
+	}
 	feeDenom, err := k.feeKeeper.FeeDenom(ctx)
 	if err != nil {
 		return nil, err
